@@ -437,6 +437,19 @@ fn run_c10(args: &Args, out: &mut Out) {
         let i = match rng.below(4) { 0 => 0, 1 => n as u64 - 1, 2 => n as u64, _ => rng.below(n as u64) };
         c10_prove_case(out, &leaves, i, "sampled");
     }
+    // proofs of trees that were reloaded / refilled over storage still holding a longer history
+    // (the tree "of n leaves" of the statement need not be freshly built)
+    for (long, short) in [(8u64, 7u64), (8, 5), (16, 15), (16, 9), (12, 11), (4, 3), (13, 8)] {
+        let mut ops: Vec<Op> = (0..long).map(|x| Op::Push(vec![x as u8, 7])).collect();
+        ops.push(Op::Load(short));
+        ops.extend((0..=short).map(Op::Prove));
+        c11_case(out, ops, "prove-after-reload");
+        let mut ops: Vec<Op> = (0..long).map(|x| Op::Push(vec![x as u8, 8])).collect();
+        ops.push(Op::Reset);
+        ops.extend((0..short).map(|x| Op::Push(vec![x as u8, 9])));
+        ops.extend((0..=short).map(Op::Prove));
+        c11_case(out, ops, "prove-after-reset-refill");
+    }
     // structured mutations of valid proofs
     let muts = args.scale(60, 1500);
     for _ in 0..muts {
